@@ -118,7 +118,7 @@ template<typename DT> LAFEM::SparseMatrixCSR<DT, Index> gen(Index n, Dense<DT>& 
 }
 
 template<typename DT, typename MK>
-void solver_cases(const std::string& sname, Index n, bool spd_matrix, int max_iter, MK mk, double tol_shadow = 1e-8)
+void solver_cases(const std::string& sname, Index n, bool spd_matrix, int max_iter, MK mk, double tol_shadow = 1e-8, int iter_slack = 0)
 {
   typedef LAFEM::DenseVector<DT, Index> VT; typedef LAFEM::SparseMatrixCSR<DT, Index> MT; typedef LAFEM::NoneFilter<DT, Index> FT;
   for(int mode = 0; mode < 3; ++mode) // 0: apply (junk start vector A), 1: correct with symbolic start vector, 2: apply twice on one object
@@ -126,6 +126,14 @@ void solver_cases(const std::string& sname, Index n, bool spd_matrix, int max_it
     static const char* mn[] = {"apply", "correct", "apply-twice"};
     std::string cn = "solver " + sname + " n=" + str(n) + " " + mn[mode] + " max_iter=" + str(Index(max_iter)) + (tol_shadow > 1e-4 ? " loose-tolerance" : ""); if(!H<DT>::want(cn)) continue;
     H<DT>::begin(cn, "{\"part\":\"solver\",\"solver\":\"" + sname + "\"}");
+    // probe: one complete solve on a fresh solver object must not read uninitialised work vectors
+    bool clean = uninit_free<DT>([&]() -> bool {
+      Dense<DT> D; MT A = spd_matrix ? spd<DT>(n, D) : gen<DT>(n, D); FT filt; VT b = make_vec<DT>(n, "b", 1.0, 0.4375), x(n);
+      for(Index i = 0; i < n; ++i) x(i, DT(0));
+      auto s = mk(A, filt); s->set_max_iter(Index(max_iter)); s->set_min_iter(Index(0)); s->set_tol_rel(DT(tol_shadow)); s->set_tol_abs(DT(1e30)); s->set_plot_mode(Solver::PlotMode::none);
+      s->init(); s->apply(x, b); bool fin = true; for(Index i = 0; i < n; ++i) fin = fin && (H<DT>::sh(x(i)) == H<DT>::sh(x(i))); fin = fin && (H<DT>::sh(s->get_def_final()) == H<DT>::sh(s->get_def_final())); s->done(); return fin; });
+    H<DT>::fact("a solve on a fresh solver object does not read uninitialised work vectors", clean, "an uninitialised work vector is read (0 * old value: NaN/Inf garbage propagates into the solution)");
+    if(!clean) { H<DT>::end(); continue; }
     int rc = guarded([&] {
       Dense<DT> D; MT A = spd_matrix ? spd<DT>(n, D) : gen<DT>(n, D); FT filt;
       VT b = make_vec<DT>(n, "b", 1.0, 0.4375); auto bb = to_std(b);
@@ -140,7 +148,7 @@ void solver_cases(const std::string& sname, Index n, bool spd_matrix, int max_it
         H<DT>::eq(t + " reported final defect^2 == |b - A x|^2", df * df, residual2(xx)); H<DT>::le(t + " final defect >= 0", DT(0), df);
         for(Index i = 0; i < n; ++i) H<DT>::eq(t + " rhs unchanged [" + str(i) + "]", b(i), bb[i]);
         if(st == Solver::Status::success) { H<DT>::le(t + " success: final <= tol_rel * initial (or abs)", Math::min(DT(df - tolr * s->get_def_initial()), DT(df - DT(0))), DT(0)); }
-        H<DT>::fact(t + " iteration count within limit", s->get_num_iter() <= Index(max_iter), str(s->get_num_iter()));
+        H<DT>::fact(t + " iteration count within limit", s->get_num_iter() <= Index(max_iter + iter_slack), str(s->get_num_iter()));
         H<DT>::fact(t + " status is success or max_iter", st == Solver::Status::success || st == Solver::Status::max_iter, stringify(st));
         if(st == Solver::Status::max_iter) H<DT>::fact(t + " max_iter reported only at the limit", s->get_num_iter() >= Index(max_iter));
       };
@@ -200,6 +208,7 @@ void repeat_stagnation()
   H<DT>::end();
 }
 
+#ifndef C07_EXTRA_SOLVERS
 template<typename DT>
 void run_all()
 {
@@ -225,7 +234,9 @@ void run_all()
   solver_cases<DT>("richardson", 2, true, 3, [](const MT& A, const FT& f) { return Solver::new_richardson(A, f, DT(0.25)); }, 0.9);
   repeat_stagnation<DT>();
 }
+#endif // C07_EXTRA_SOLVERS
 
+#ifndef C07_EXTRA_SOLVERS
 int main(int argc, char** argv)
 {
   int na = argc;
@@ -236,3 +247,4 @@ int main(int argc, char** argv)
 #endif
   });
 }
+#endif
